@@ -251,6 +251,10 @@ func valuePool() []Val {
 		vTime(time.Date(2021, 3, 4, 10, 30, 7, 999999999, time.UTC)), vTime(time.Unix(-1, 999999999).UTC()), vTime(time.Date(2021, 3, 4, 10, 30, 7, 999999500, time.UTC)), vTime(time.Date(1960, 3, 4, 10, 30, 7, 500000000, time.UTC)),
 		vLong(1000000000000), vLong(-10000000000), vInt(-31), vInt(-26), vInt(-17),
 		vArr(long...),
+		// round 5: duration texts in every unit spelling, decimal texts a hair above a single-precision midpoint, two instants 2^64 ns apart
+		vStr("250\u03bcs"), vStr("250\u00b5s"), vStr("1m0.5\u03bcs"), vStr("-2.5us"), vStr("2h45m"), vStr("1.5h"),
+		vStr("16777217.000000001"), vStr("1.0000000596046447753906251"), vStr("0e9999999999999999"), vDouble(math.Nextafter(1, 2)), vDouble(-math.Nextafter(1, 2)), vDouble(1+1e-10), vDouble(math.Nextafter(1, 0)), vStr("25e3"), vStr("-0e12"), vStr("1e400"), vStr("9e18"),
+		vTime(time.Date(2000, 1, 1, 0, 0, 0, 0, time.UTC)), vTime(time.Date(2000, 1, 1, 0, 0, 0, 0, time.UTC).Add(1<<63-1).Add(1<<63-1).Add(2)),
 	)
 	return p
 }
